@@ -130,6 +130,8 @@ def canon(n):
     k = n.get("k")
     c = n.get("c", [])
     if k == "DeclRefExpr":
+        if n.get("dk") == "EnumConstant" and "v" in n:
+            return "#%s" % n["v"]
         return "d%s" % n.get("d")
     if k == "MemberExpr":
         base = strip_all(c[0]) if c else None
@@ -173,11 +175,22 @@ def atomise(cond, outcome):
         if outcome:
             yield from atomise(n["c"][0], True)
             yield from atomise(n["c"][1], True)
+        else:
+            # not both: usable by unit propagation when each side is one atom
+            a = list(atomise(n["c"][0], True))
+            b = list(atomise(n["c"][1], True))
+            if len(a) == 1 and len(b) == 1 and a[0][0] in "TC" and b[0][0] in "TC":
+                yield ("NAND", a[0], b[0])
         return
     if k == "BinaryOperator" and n.get("op") == "||":
         if not outcome:
             yield from atomise(n["c"][0], False)
             yield from atomise(n["c"][1], False)
+        else:
+            a = list(atomise(n["c"][0], False))
+            b = list(atomise(n["c"][1], False))
+            if len(a) == 1 and len(b) == 1 and a[0][0] in "TC" and b[0][0] in "TC":
+                yield ("NAND", a[0], b[0])   # not (both false)
         return
     cf = cmp_fact(n, outcome)
     if cf:
@@ -194,7 +207,20 @@ def atomise(cond, outcome):
         yield ("T", atom, pos if outcome else (not pos))
 
 
+def negate_key(k):
+    if k[0] == "T":
+        return ("T", k[1], not k[2])
+    if k[0] == "C":
+        return ("C", k[1], NEG[k[2]], k[3])
+    return None
+
+
 def fact_key(f):
+    if f[0] == "NAND":
+        a, b = fact_key(f[1]), fact_key(f[2])
+        if b < a:
+            a, b = b, a
+        return ("NAND", a, b)
     if f[0] == "T":
         return ("T", canon(f[1]), f[2])
     if f[0] == "C":
@@ -271,7 +297,7 @@ class Guards:
                     for p in cfg.pred[b]:
                         if p not in reach or OUT[p] is TOP:
                             continue
-                        contrib = set(OUT[p]) | self.edge_facts.get((p, b), set())
+                        contrib = self._weaken(set(OUT[p]) | self.edge_facts.get((p, b), set()))
                         acc = contrib if acc is TOP else (acc & contrib)
                     if acc is TOP:
                         continue
@@ -281,6 +307,16 @@ class Guards:
                     IN[b], OUT[b] = new_in, new_out
                     changed = True
         self.IN, self.OUT = IN, OUT
+
+    def _weaken(self, fs):
+        """Add the NAND facts implied by atomic facts (not a  =>  not (a and b)),
+        so that they survive the intersection at joins."""
+        for k in self.rep:
+            if k[0] == "NAND" and k not in fs:
+                na, nb = negate_key(k[1]), negate_key(k[2])
+                if (na is not None and na in fs) or (nb is not None and nb in fs):
+                    fs.add(k)
+        return fs
 
     def _writes(self, n):
         w = written_decls(n)
@@ -294,6 +330,19 @@ class Guards:
             if f[0] == "S":
                 k = ("S", canon(f[1]), f[2])
                 nodes = [f[1]]
+            elif f[0] == "NAND":
+                k = fact_key(f)
+                nodes = []
+                for sub in (f[1], f[2]):
+                    nodes += [sub[1]] if sub[0] == "T" else [sub[1], sub[3]]
+                    sk = fact_key(sub)
+                    if sk not in self.rep:
+                        self.rep[sk] = sub
+                    nk = negate_key(sk)
+                    if nk is not None and nk not in self.rep:
+                        self.rep[nk] = (("T", sub[1], not sub[2]) if sub[0] == "T" else ("C", sub[1], NEG[sub[2]], sub[3]))
+                        self.vars[nk] = decl_ids(sub[1]) | (decl_ids(sub[3]) if sub[0] == "C" else set())
+                        self.shape[nk] = set()
             else:
                 k = fact_key(f)
                 nodes = [f[1]] if f[0] == "T" else [f[1], f[3]]
@@ -354,7 +403,24 @@ class Guards:
                 n = self.fn.nodes.get(e)
                 if n is not None:
                     written |= self._writes(n)
-        return set(f for f in self.IN[b] if not self._killed(f, written))
+        return self._close(set(f for f in self.IN[b] if not self._killed(f, written)))
+
+    def _close(self, fs):
+        """Unit propagation over NAND facts: not(a and b), a  =>  not b."""
+        changed = True
+        while changed:
+            changed = False
+            for k in list(fs):
+                if k[0] != "NAND":
+                    continue
+                for x, y in ((k[1], k[2]), (k[2], k[1])):
+                    if x in fs:
+                        ny = negate_key(y)
+                        if ny is not None and ny not in fs:
+                            # representative for the derived fact
+                            fs.add(ny)
+                            changed = True
+        return fs
 
     def truthy(self, node, expr, want=True):
         fs = self.at(node)
@@ -391,7 +457,7 @@ class Guards:
     def out_facts(self, b):
         if b not in self.OUT or self.OUT[b] is None:
             return None
-        return set(self.OUT[b])
+        return self._close(set(self.OUT[b]))
 
     def edge(self, p, s):
         o = self.out_facts(p)
